@@ -657,11 +657,24 @@ func ruleC04Escape(p *Program, r *Run, g *grammar) {
 				}
 			}
 		}
-		if bKey == "" {
-			r.Fail("C04/escape", fn+" idiom", p.Pos(fd.Pos()), "sanitizer does not copy the value byte by byte in a recognised way (byte loop with per-byte branches); its escape set cannot be recovered")
+		// or the value goes through a strings.Replacer with a constant table
+		replacer := ""
+		for _, o := range g.occs {
+			if o.Ev.Func == fd && o.Ev.Kind == "RAW" && strings.HasPrefix(o.Origin, "replacer:") {
+				replacer = strings.TrimPrefix(o.Origin, "replacer:")
+			}
+		}
+		if bKey == "" && replacer == "" {
+			r.Fail("C04/escape", fn+" idiom", p.Pos(fd.Pos()), "sanitizer does not copy the value byte by byte in a recognised way (byte loop with per-byte branches, or a strings.Replacer with a constant table); its escape set cannot be recovered")
 			continue
 		}
 		esc := map[string]string{}
+		if replacer != "" {
+			parts := strings.Split(replacer, "\x00")
+			for i := 0; i+1 < len(parts); i += 2 {
+				esc[parts[i]] = parts[i+1]
+			}
+		}
 		escSeen := map[string]map[int]bool{}
 		opens, closes := map[string]bool{}, map[string]bool{}
 		lastBeforeExit := map[int]bool{}
@@ -675,7 +688,10 @@ func ruleC04Escape(p *Program, r *Run, g *grammar) {
 			if o.Ev.Func != fd {
 				continue
 			}
-			f := o.St.GetVar(bKey)
+			var f *Fact
+			if bKey != "" {
+				f = o.St.GetVar(bKey)
+			}
 			switch o.Ev.Kind {
 			case "T":
 				if f != nil && f.HasEq {
